@@ -171,6 +171,31 @@ def _task(task, p):
         y = wc.render(idx, letters, nd)
         sel = valid.sum(axis=1) >= 5
         check_batch(y[sel], valid[sel], nd, srange, robust, p_env, p, "words")
+        if robust and (idx[sel] == 0).any():
+            # robust results do not depend on the placeholder: every encoding of the missing cells (finite markers below /
+            # inside / above the data, NaN, +-inf with a finite argument, and NaN / +-inf passed as the nodata argument itself)
+            variant = "ws2dwcv" if p_env is None else "ws2dwcvp"
+            isel = idx[sel]
+            hasgap = (isel == 0).any(axis=1)
+            base = None
+            for enc in wc.ENCODINGS + wc.SELF_DECLARED:
+                ye, nde = wc.encode(isel, letters, enc)
+                try:
+                    oe, le = wc.call_variant(variant, ye, nde, p=p_env, srange=srange, robust=True)
+                except Exception as e:
+                    p.violation("robust_placeholders", {"variant": variant, "enc": enc, "n": n, "p": p_env, "srange": [float(srange[0]), len(srange)]},
+                                {"kind": "robust_placeholders"}, f"{variant}(robust=True) raised {type(e).__name__}: {e} with missing cells encoded as {enc}")
+                    continue
+                if base is None:
+                    base = (oe, le, nde)
+                    continue
+                diff = ((oe != base[0]).any(axis=1) | ~(le == base[1])) & hasgap
+                p.count("robust_placeholders", evaluations=int(hasgap.sum()), nontrivial=int(hasgap.sum()), states=int(hasgap.sum()))
+                for j in np.nonzero(diff)[0][:3]:
+                    p.violation("robust_placeholders", {"variant": variant, "enc": enc, "word": isel[j].tolist(), "p": p_env, "srange": [float(srange[0]), len(srange)]},
+                                {"kind": "robust_placeholders"},
+                                f"{variant}(robust=True, p={p_env}): word {isel[j].tolist()} over letters {list(letters)}: missing cells as {base[2]} -> {base[0][j].tolist()} "
+                                f"lambda {float(base[1][j])!r}; encoded as {enc} (nodata argument {nde}) -> {oe[j].tolist()} lambda {float(le[j])!r}")
         if n == 6:
             p.sample(("gcv" if not robust else "robust") + ("_asym" if p_env is not None else ""),
                      {"word": y[sel][3].tolist(), "srange": [float(srange[0]), float(srange[-1]), len(srange)], "robust": robust, "p": p_env})
@@ -311,6 +336,11 @@ def replay(sub, case, p):
     if case.get("kind") == "spelling":
         from . import spell_common
         spell_common.run(p, "C05")
+        return
+    if case["kind"] == "robust_placeholders":
+        for pe in (None, 0.2, 0.8):
+            for n in (5, 6):
+                _task(("words", n, 0, True, pe, wc.letters_for(p.seed), False), p)
         return
     if case["kind"] == "gcv":
         y = np.asarray([case["y"]], dtype=np.float64)
